@@ -2,7 +2,9 @@ import VibeProof.Model.SqlCodec
 import VibeProof.Model.View
 open VibeProof VibeProof.Proto VibeProof.Codec VibeProof.Sql VibeProof.SqlCodec VibeProof.View
 
-/-- `named KIND DB BODY OUTER` (KIND = view | cte | derived) → `(rows DET (R…))`: the outer query
+/-- `chain DB (BODY…) OUTER` → the outer query over a chain of definitions (`View.evalChain`:
+    definition k is table `|db| + k`).
+    `named KIND DB BODY OUTER` (KIND = view | cte | derived) → `(rows DET (R…))`: the outer query
     over the definition, resolved through the environment as a view / CTE, or inlined. -/
 def handle : List Sx → Sx
   | [.atom "named", .atom kind, db, body, outer] =>
@@ -16,6 +18,21 @@ def handle : List Sx → Sx
       match res with
       | .ok rows =>
         let fullRes := evalDerived d b { o with limit := none, offset := 0 }
+        let det := match fullRes with
+          | .ok full => orderDetermined o.orderBy full
+          | .error _ => false
+        let full := match fullRes with
+          | .ok f => f
+          | .error _ => rows
+        .list [.atom "rows", .atom (if det then "1" else "0"), encRows rows, encRows full]
+      | .error e => encErr e
+    | _, _, _ => .atom "bad-request"
+  | [.atom "chain", db, .list bodies, outer] =>
+    match decDb db, bodies.mapM decCore, decCore outer with
+    | some d, some bs, some o =>
+      match evalChain d bs o with
+      | .ok rows =>
+        let fullRes := evalChain d bs { o with limit := none, offset := 0 }
         let det := match fullRes with
           | .ok full => orderDetermined o.orderBy full
           | .error _ => false
